@@ -32,6 +32,7 @@ Class Num (F : Type) := {
   n_abs : F -> F;
   n_rint : F -> F;                       (* torch.round: to nearest integer, ties to even *)
   n_cast : storage -> F -> F;            (* value held after .to(<storage dtype>) and back *)
+  n_nan_to_num : F -> F;                 (* torch.nan_to_num(x, nan=0.0): NaN -> 0, +-inf -> +-largest finite *)
   n_eqb : F -> F -> bool;
 }.
 
@@ -66,6 +67,15 @@ Definition tf_neg (a : tensor F) := t_map n_neg a.
 Definition tf_abs (a : tensor F) := t_map n_abs a.
 Definition tf_round (a : tensor F) := t_map n_rint a.
 Definition tf_clamp (lo hi : Z) (a : tensor F) := t_map (n_clamp (n_of_Z lo) (n_of_Z hi)) a.
+Definition tf_clamp_max (hi : Z) (a : tensor F) := t_map (fun x => n_min x (n_of_Z hi)) a.
+Definition tf_clamp_min (lo : Z) (a : tensor F) := t_map (fun x => n_max x (n_of_Z lo)) a.
+Definition tf_nan_to_num (a : tensor F) := t_map n_nan_to_num a.
+Definition tf_eq_int (a : tensor F) (k : Z) : tensor bool := t_map (fun x => n_eqb x (n_of_Z k)) a.
+Definition tf_where (c : tensor bool) (a b : tensor F) : res (tensor F) :=
+  if shape_eqb (shape c) (shape a) && shape_eqb (shape a) (shape b) then
+    Ok (T (shape a) (map (fun p : bool * F * F => if fst (fst p) then snd (fst p) else snd p)
+                         (combine (combine (data c) (data a)) (data b))))
+  else Err "Unsupported:broadcast"%string.
 Definition tf_cast (s : storage) (a : tensor F) := t_map (n_cast s) a.
 Definition tf_div_int (a : tensor F) (k : Z) := t_map (fun x => n_div x (n_of_Z k)) a.
 Definition tf_mul_int (a : tensor F) (k : Z) := t_map (fun x => n_mul x (n_of_Z k)) a.
